@@ -3,8 +3,8 @@ import ScrapliModel.Close.Model
 /-!
 Line protocol for C07.
 
-`c07 validate <nc> <mode> <twice> <r> <o> <n> <w> <events>`
-  * `<nc> <twice>` 0/1; `<mode>` 0 (blocked read returns EOF on close) / 1 (returns an error) /
+`c07 validate <nc> <mode> <twice> <cerr> <r> <o> <n> <w> <events>`
+  * `<nc> <twice> <cerr>` 0/1 (`cerr`: the transport's `Close()` returns an error); `<mode>` 0 (blocked read returns EOF on close) / 1 (returns an error) /
     2 (stays blocked);
   * `<r> <o> <n> <w>`: where the read loop, the operation, the NETCONF read loop and the RPC waiter
     are when the harness takes control (labels as below; the closer is idle, the device quiet with
@@ -53,9 +53,9 @@ def labelOf (p : Proc) (s : St) : String :=
   | .E => match s.feed with | .quiet => "quiet" | .data => "data" | .eof => "eof" | .err => "err"
 
 def c07Code (s : St) : Nat :=
-  (((((((((((b2n s.nc * 3 + s.mode.toNat) * 2 + b2n s.twice) * 12 + s.r.toNat) * 10 + s.k.toNat) * 2
+  ((((((((((((b2n s.nc * 3 + s.mode.toNat) * 2 + b2n s.twice) * 12 + s.r.toNat) * 11 + s.k.toNat) * 2
     + b2n s.second) * 6 + s.o.toNat) * 2 + b2n s.oSecond) * 11 + s.n.toNat) * 6 + s.w.toNat) * 4
-    + s.feed.toNat) * 3 + s.left.toNat) * 3 + s.panic.ctorIdx
+    + s.feed.toNat) * 3 + s.left.toNat) * 3 + s.panic.ctorIdx) * 4 + b2n s.closeErr * 2 + b2n s.lastErr
 
 def dedup (l : List St) : List St :=
   l.foldl (fun acc s => if acc.any (fun t => c07Code t == c07Code s) then acc else acc ++ [s]) []
@@ -109,7 +109,7 @@ def observeT (p : Proc) (lab : String) (t : Tr) : List Tr :=
     direct ++ viaOther
 
 def showFinal (s : St) : String :=
-  s!"r:{s.r.label};k:{s.k.label};second:{b2s s.second};o:{s.o.label};n:{s.n.label};w:{s.w.label};calls:{s.closeCalls};panic:{s.panic.ctorIdx}"
+  s!"r:{s.r.label};k:{s.k.label};second:{b2s s.second};o:{s.o.label};n:{s.n.label};w:{s.w.label};calls:{s.closeCalls};err:{b2s s.lastErr};panic:{s.panic.ctorIdx}"
 
 def parseEvents (s : String) : Option (List (Proc × String)) :=
   if s == "." then some [] else
@@ -126,10 +126,10 @@ def runEvents : List (Proc × String) → Nat → List Tr → List Nat → (Int 
     else runEvents rest (i + 1) nxt (path ++ (nxt.take 1).map fun t => c07Code t.s)
 
 def handleC07 : List String → String
-  | ["validate", nc, mode, twice, r, o, n, w, evs] =>
+  | ["validate", nc, mode, twice, cerr, r, o, n, w, evs] =>
     match c07Mode mode, rOfLabel r, oOfLabel o, nOfLabel n, wOfLabel w, parseEvents evs with
     | some mode, some r, some o, some n, some w, some evs =>
-      let s0 : St := { mkInit (s2b nc) mode (s2b twice) false with r := r, o := o, n := n, w := w }
+      let s0 : St := { mkInit (s2b nc) mode (s2b twice) false (s2b cerr) with r := r, o := o, n := n, w := w }
       let dom := inv s0 && s0.k == .idle
       let (at_, curT, path) := runEvents evs 0 [{ s := s0, ahead := [] }] [c07Code s0]
       -- at the end every move must have been reported
